@@ -122,6 +122,9 @@ func Minimize(t *testing.T, s *Script, def PropDef, class string, known []KnownF
 			if i >= len(cur.World.Nodes) || used[cur.World.Nodes[i].Name] || len(cur.World.Nodes) <= 1 {
 				continue
 			}
+			if cur.Prop == "C10" && cur.World.Nodes[i].Name == "nw" {
+				continue // the witness workload's own node: without it the witness is not healthy any more
+			}
 			c := cloneScript(cur)
 			c.World.Nodes = append(c.World.Nodes[:i], c.World.Nodes[i+1:]...)
 			if try(c) {
